@@ -123,3 +123,41 @@ fn c03_rtr_twin_must_fail() {
     assert!(r.is_ok());
     core::mem::forget(r);
 }
+
+//@ id=C13 tier=off cap=3600 mem=40
+//@ fn: rpki::RtrCodec::decode (tokio_util Decoder impl), rpki::Message::frame_length, is_known_type, from_bytes, bytes::BytesMut::split_to
+//@ bound: buffer = one PDU of a type the client does not use (type byte symbolic among the unused ones, 8..12 bytes long with symbolic body) immediately followed by a complete Cache Reset PDU; one decode call; unwind 20
+//@ desc: progress through the real decode(): the unused PDU is skipped and the following PDU is returned by the SAME call (a decoder that answered "need more bytes" here would stall until the cache happened to send more data); the buffer is fully consumed
+#[kani::proof]
+#[kani::unwind(20)]
+#[kani::stub(alloc::fmt::format, stub_format)]
+fn c13_rtr_decode_skips_unused_pdu() {
+    let ty: u8 = kani::any();
+    kani::assume(!Message::is_known_type(ty));
+    let extra: bool = kani::any();
+    let body: [u8; 4] = kani::any();
+    let mut raw = [0u8; 20];
+    let l1 = if extra { 12 } else { 8 };
+    raw[0] = 1;
+    raw[1] = ty;
+    raw[7] = l1 as u8;
+    if extra {
+        raw[8] = body[0];
+        raw[9] = body[1];
+        raw[10] = body[2];
+        raw[11] = body[3];
+    }
+    raw[l1] = 1;
+    raw[l1 + 1] = Message::CACHE_RESET;
+    raw[l1 + 7] = 8;
+    let mut buf = BytesMut::with_capacity(32);
+    buf.extend_from_slice(&raw[..l1 + 8]);
+    let mut codec = RtrCodec::new();
+    let r = codec.decode(&mut buf);
+    assert!(matches!(r, Ok(Some(Message::CacheReset))));
+    assert!(buf.is_empty());
+    kani::cover!(extra);
+    kani::cover!(ty == 9);
+    core::mem::forget(r);
+    core::mem::forget(buf);
+}
